@@ -433,6 +433,12 @@ def run_history(plan, ref_results, pre_bytes, stats):
         facts.update(resume_info)
         if o['outcome'] == 'finished':
             final = o['results']
+            if final is None:
+                # run_simulation() / resume_from_checkpoint() are documented to return the results dictionary
+                facts['simulation_class'] = W.ENGINES[cfg['family']][0]
+                return {'invariant': 'resume.returned_no_results' if start[0] == 'resume' else 'run.returned_no_results',
+                        'detail': f'{"resume_from_checkpoint" if start[0] == "resume" else "run_simulation"}() returned '
+                                  f'None instead of the results dictionary', 'facts': facts, 'trace': trace}
             # the final file must be complete too
             ok, cls, detail = ev.check(world.fs.files, n_done)
             if not ok:
@@ -657,7 +663,7 @@ def minimise(found, budget_s=240.0):
     simplifications = [('ext', '.pkl'), ('clock', 'steady'), ('extra_measurements', False), ('L', 4),
                        ('preexisting_output', False), ('conserve', None), ('save_every', 0.0), ('mixer', None),
                        ('measure_at_checkpoints', False), ('max_hours', None), ('N_sweeps_check', 1),
-                       ('chi_list', None), ('group_sites', 1), ('measure_initial', True), ('save_stats', True), ('save_psi', True), ('start_time', 0.0), ('preserve_norm', None), ('combine', False), ('max_sweeps', 3), ('n_outer', 3), ('N_steps', 1), ('chi', 8), ('model', 'TFIChain'),
+                       ('chi_list', None), ('group_sites', 1), ('measure_initial', True), ('save_stats', True), ('save_psi', True), ('wrapped_measurement', False), ('start_time', 0.0), ('preserve_norm', None), ('combine', False), ('max_sweeps', 3), ('n_outer', 3), ('N_steps', 1), ('chi', 8), ('model', 'TFIChain'),
                        ('order', 2)]
     for key, val in simplifications:
         if key in best['cfg'] and best['cfg'][key] != val and best['cfg'][key] is not None or (
